@@ -8,13 +8,13 @@ VERIF = os.path.dirname(os.path.dirname(os.path.abspath(__file__)))
 
 # id -> (category, technique, text, note, design_ref)
 CHECKS = {
-    "C01": ("model_checking", "deviation-bounded exhaustive search of scripted pressure environments on the real solveWall (<=2 deviations per execution, each replayed twice), an iteration-map model of the real wallPressure loop, a lattice of real end-to-end solves probed with a fresh solver (incl. nucleation temperatures tuned at run time so that the root sits just below the top of the search window), and exhaustive call histories on a real manager with bit-identity to a fresh manager",
+    "C01": ("model_checking", "deviation-bounded exhaustive search of scripted pressure environments on the real solveWall (<=2 deviations per execution, each replayed twice), an iteration-map model of the real wallPressure loop, a lattice of real end-to-end solves probed with a fresh solver (incl. nucleation temperatures tuned at run time so that the root sits just below the top of the search window), and exhaustive call histories on a real manager (settings supplied as arrays, configuration must stay untouched) with bit-identity to a fresh manager",
             "Success with a finite velocity implies a sign change of the pressure within the configured tolerance, the window, and auxiliary data that carry the tag of the final evaluation; runaway implies negative pressure at the top and no velocity; failed final evaluations are labelled ERROR; deviations at earlier evaluations do not change the result; real solves: sign change at v -/+ 1.25 errTol with a fresh EOM, T+-/vJ/vLTE of the matching at v, wall parameters reproduced by one more evaluation; every operation history up to depth 2/3 leaves solveWall bit-identical.",
             "trusted: the scripted environment sets the solver flags the way the real wallPressure/findPlasmaProfile do; real solves with an out-of-equilibrium particle use a synthetic collision operator (section offeq; the shipped collision files are LFS pointers)", "DESIGN.md sections 3 C01 and 8.2"),
     "C03": ("exploration", "exhaustive EOS x Tn x units x tolerance x wall-velocity lattice; independent integrator in the similarity variable xi with energy-flux jump at the front; efficiency factor from the oracle's own profile",
             "For every returned deflagration/hybrid matching that satisfies the junction conditions the oracle integrates the compression wave in xi, crosses the shock and must arrive at Tn (tolerance = solver tolerances x |dlnTn/dlnv+| computed by the oracle); momentum-flux jump for constant-c_s EOS; detonations T+==Tn, v+==vw exactly; efficiency factor against the oracle's kinetic-energy integral; direct solveHydroShock calls on a (vw,v+,T+) lattice.",
             "trusted: scipy DOP853 in the oracle; matchings violating the junction conditions are C02's finding D9 and skipped here", "DESIGN.md sections 3 C03 and 8.2"),
-    "C04": ("exploration", "exhaustive lattice potential x grid size x wall velocity (3 deflagrations, 2 hybrids, 3 detonations) x wall shape x out-of-equilibrium moment variant; analytic T30/T33 at every grid point",
+    "C04": ("exploration", "exhaustive lattice potential x grid size x wall velocity (3 deflagrations, 2 hybrids, 3 detonations) x wall shape x out-of-equilibrium moment variant; analytic T30/T33 at every grid point; all ordered pairs (previous wall -> judged wall) on one EOM object without a grid update in between",
             "At every grid point of every successful profile the analytic residual of the T33 equation changes sign inside the root finder's guaranteed interval and T30 equals c1; far-field values against the matching on both branches; boundary constants against the analytic EOS.",
             "trusted: analytic potentials of vmc/models.py; the out-of-equilibrium stress is the code's own deltaToTmunu (C13's subject) evaluated with the oracle's velocity", "DESIGN.md sections 3 C04 and 8.2"),
     "C05": ("exploration", "exhaustive EOS lattice x both tolerances; entropy mismatch recomputed by the oracle from validated matchings on a grid of the window for the sentinel clauses; call histories with stale convergence flags compared bitwise with a fresh object; WallGoManager.wallSpeedLTE after the manager served another parameter point / another Tn",
@@ -23,13 +23,13 @@ CHECKS = {
     "C06": ("exploration", "exhaustive EOS lattice x velocities x phase-range/flag combinations; oracle Chapman-Jouguet velocity; scan of validated matchings for the range clauses",
             "Ordering/causality/branch relations for every validated matching; vJ equals the oracle's CJ velocity; sqrt(delta) approach of the detonation branch; fastestDeflag/slowestDeton against the first crossing of the tabulated maxima found by the oracle's scan.",
             "trusted: oracle junction algebra; exotic EOS where an exact solution itself violates an ordering clause are inadmissible for that clause", "DESIGN.md section 3 C06"),
-    "C07": ("exploration", "metamorphic pairs (units x s, units x 1) over the full product model x Tn x settings x unit factor on the real end-to-end pipeline",
+    "C07": ("exploration", "metamorphic pairs (units x s, units x 1) over the full product model x Tn x settings x unit factor on the real end-to-end pipeline, incl. pairs with an out-of-equilibrium particle (mass function scaled with the units, synthetic relaxation collision operator in both storage bases)",
             "About 30 pair relations per case: every dimensionless output equal within solver tolerances, every dimensionful one scaled by the right power; a run that raises only in scaled units is a violation reported with its stage.",
-            "trusted: analytic models of vmc/models.py (Scaled wrapper); wall-shape tolerance 5e-3 from measured reproducibility; out-of-equilibrium particles excluded", "DESIGN.md sections 3 C07 and 8.2"),
-    "C08": ("exploration", "complete hyperoctahedral group of the field space x 3 translations (incl. a model with a spectator field that a permutation lists first), metamorphic comparison with the original labelling on the real end-to-end pipeline",
+            "trusted: analytic models of vmc/models.py (Scaled wrapper); wall-shape tolerance 5e-3 from measured reproducibility; the shipped collision files are LFS pointers: out-of-equilibrium pairs use a synthetic collision operator", "DESIGN.md sections 3 C07 and 8.2"),
+    "C08": ("exploration", "complete hyperoctahedral group of the field space x 3 translations (incl. a model with a spectator field that a permutation lists first), metamorphic comparison with the original labelling on the real end-to-end pipeline, incl. the group with an out-of-equilibrium particle whose mass function is transformed with the fields (synthetic relaxation collision operator)",
             "Velocities, temperatures, matchings equal; widths permuted; distances between wall centres mapped by the permutation; phases and profiles transformed pointwise.",
             "trusted: Relabel wrapper of vmc/models.py; wall-shape tolerance 5e-3 from measured reproducibility", "DESIGN.md sections 3 C08 and 8.2"),
-    "C13": ("exploration", "complete monomial basis of the quadrature's exactness class per grid size and basis variant; mpmath ladder for a non-polynomial family; deltaToTmunu against the oracle's own boosted momentum integral",
+    "C13": ("exploration", "complete monomial basis of the quadrature's exactness class per grid size, basis variant and momentum scale (1e-10 ... 1e10); mpmath ladder for a non-polynomial family; deltaToTmunu against the oracle's own boosted momentum integral",
             "Each of the four moments against the closed-form Chebyshev-moment product for every basis monomial, linearity on pairs, monotone convergence with bounds on a ladder of N, T30/T33 out-of-equilibrium parts for several plasma velocities and 1-3 species.",
             "trusted: mpmath quadrature; weights and measure written from the property statement", "DESIGN.md section 3 C13"),
     "C15": ("exploration", "exhaustive template/bag lattice x units x tolerances x velocities: Hydrodynamics against HydrodynamicsTemplateModel with oracle-derived conditioning; oracle solver as referee where the full solver is invalid",
@@ -44,13 +44,13 @@ CHECKS = {
     "C09": ("exploration", "exhaustive lattice of potentials x temperatures x wall shapes x grid sizes on the real pressure integral; two-tier oracle (independent quadrature for every shape, Delta V for resolved shapes)",
             "The real EOM._updateGrid/_intermediatePressureResults/wallProfile/wallPressure are executed on every lattice shape; tier (i) compares with an independent Gauss-Chebyshev-Lobatto quadrature of the analytic integrand for every shape, tier (ii) with V(low)-V(high) for every resolved shape; dphi/dz against the complex-step derivative of phi at all grid points.",
             "trusted: analytic potentials in vmc/models.py, numerical differentiation of grid.decompactify for the reference Jacobian", "DESIGN.md section 3 C09"),
-    "C10": ("exploration", "exhaustive lattice of traced models x Tn x range window x units x 40 temperatures per phase (inside, at and beyond both table ends); relations recomputed from the reported p alone",
+    "C10": ("exploration", "exhaustive lattice of traced models x Tn x range window x units x 40 temperatures per phase (inside, at and beyond both table ends); relations recomputed from the reported p alone; the same relation set on objects with a trace/use/re-trace history",
             "dp, ddp against exact-rational 5-point stencils of the reported p, e/w/cs^2/de recomputed by the oracle, continuity across the four range boundaries, p == -V(min) inside the range against the closed-form minimum, alpha against its definition, and the no-setExtrapolate history.",
             "trusted: closed-form phases of vmc/models.py; tolerance of p=-V(min) is the configured phaseTracerTol", "DESIGN.md section 3 C10"),
     "C11": ("model_checking", "exhaustive lattice model x phase x start x requested range x step x tolerance x re-minimisation x units on the real tracer with closed-form minima/spinodals, plus BFS over re-trace histories (row invariants only)",
             "Every tabulated row: |grad V| within an rTol-derived bound, positive-definite analytic Hessian, stored V, continuity against the implicit-function derivative (detects branch hops), mid-point interpolation against the exact minimum; end of table vs closed-form fold/instability temperatures and end flags; critical temperature vs closed form; histories of traces explored by BFS with table digests.",
             "trusted: closed-form phases/spinodals of vmc/models.py; continuous bifurcations ('merge' points) are kept 5% away from requested ranges; what a re-trace does with a new request is recorded as an observation, not judged (the property quantifies over inputs/configurations)", "DESIGN.md section 3 C11"),
-    "C20": ("exploration", "complete enumeration of the shipped table rows (thorough) / every 25th row + all rows near the non-analytic points + fourth-difference smoothness on every row (quick); direct integrals on a fixed argument lattice against 35-digit mpmath with break points; BFS over construction histories of the shared default integrals",
+    "C20": ("exploration", "complete enumeration of the shipped table rows (thorough) / every 25th row + all rows near the non-analytic points + fourth-difference smoothness on every row (quick); direct integrals on a fixed argument lattice against 35-digit mpmath with break points; one directly-evaluating potential object in long use (640-temperature scan, then the property's limits); BFS over construction histories of the shared default integrals",
             "Real and imaginary parts, value and derivative of Jb/Jf against the defining integrals; closed forms at 0 and for Im J; table rows, spline slopes and mid-points against the reference with region-dependent derived bands; one-loop thermal potential in the massless/heavy limits and continuity in the masses; Coleman-Weinberg term against its closed form for all imaginary-part options.",
             "trusted: mpmath quadrature (self-checked against the Bessel series and the closed-form imaginary part on every reference value)", "DESIGN.md section 3 C20"),
     "C12": ("model_checking", "exhaustive lattice (backgrounds x particles x collision operators x 4 basis combinations x grid sizes x derivative mode) plus BFS over all call histories to depth 3/4 on a real BoltzmannSolver with state digests",
